@@ -1,3 +1,8 @@
+/-
+The invariant of the main loop of `compute_argument_factorization` (model `runNodes`): for every
+processed node `j` of `S`, either it is argument free and `F[sf j] = S[j]`, or
+`S[j] = Σ_{(k,f) ∈ factors j} F[f]·Π_{a∈k} S[a]`; `F` is closed and only grows.
+-/
 import FfcxProofs.Lemmas.FactorizeHandlers
 
 namespace Ffcx.IR
